@@ -190,6 +190,16 @@ type IT2 struct {
 // @implements d.Missing
 type IT3 int
 
+// IT4 carries two failing contracts: two diagnostics of different codes at one position.
+// @implements zz.Nope
+// @implements d.Iface
+type IT4 struct{}
+
+// IT5 likewise, with the other pair of codes.
+// @implements d.Missing
+// @implements d.Iface
+type IT5 struct{}
+
 var G1 = d.T{}
 
 var G2 d.T
@@ -239,7 +249,15 @@ func f1(x d.T, p *d.T, s d.S, y int) {
 	d.MkS().
 		Reset()
 	s.
-		PM()`)
+		PM()
+	ws2 := []d.T{
+		{
+			F: 1,
+		},
+		{
+			F: 2},
+	}
+	_ = ws2`)
 	lines(ua, `	if y > 0 {
 		x.F = 2
 		_ = d.T{}
@@ -320,7 +338,14 @@ func g1(x d.T, s d.S) {
 
 var GZ = new(d.T)
 `)
-	return []*IgBase{{Name: "all16", Files: []*IgFile{d, ua, ub}}}
+	// c.go mirrors b.go line for line (other names): every diagnostic of b.go has a namesake with the
+	// same code on the same line NUMBER of another file of the package
+	uc := &IgFile{Pkg: PathU, Name: "c.go"}
+	for _, l := range ub.Lines {
+		t := strings.NewReplacer("g1(", "k1(", "GZ", "KZ").Replace(l.Text)
+		uc.Lines = append(uc.Lines, IgLine{Text: t, Once: l.Once})
+	}
+	return []*IgBase{{Name: "all16", Files: []*IgFile{d, ua, ub, uc}}}
 }
 
 // ---------------------------------------------------------------------------------------------
